@@ -17,7 +17,7 @@ import numpy as np
 from .common import Driver, F, I, L, OPT, unF, RngRecorder, close
 from . import ibmrun, geom
 
-RULE = ("every attribute form (scalar incl. numpy scalars; list of length num with integral, fractional (uniform(-50,50), 0.5, -0.0, "
+RULE = ("[single release time: explicit lists of 1..300 particles (and several groups released at the same time) must come back verbatim in particle order through make_release, table and file] every attribute form (scalar incl. numpy scalars; list of length num with integral, fractional (uniform(-50,50), 0.5, -0.0, "
         "1e-12, 1e9+0.5) or int elements; [low, high] with integral, fractional or int ends; gaussian with/without min/max; "
         "exponential with/without max; piecewise with/without the documented optional key `degree` in {1,2,3}; callable "
         "(lambda returning an array, lambda returning a list, callable object, lambda returning values in no particular order); dotted "
@@ -827,6 +827,55 @@ def run_piece_mass(ctx, mk):
                    dict(cs, observed_shares=shares, specified_shares=want))
 
 
+def run_single_time_order(ctx, mk):
+    """"explicit lists are reproduced verbatim in particle order" where all particles of a group share ONE release time
+    (the commonest configuration: `date: <one date>`): the rows of the group tie in the date sort of make_release, and
+    the explicit list must still come back in the order given (1 .. 300 particles; numpy's non-stable sorts start to
+    permute ties at 17 elements).  Also several groups released at the same time: each group's values stay in the
+    group's own order (rows identified by a group tag).  Implementation-side only; exact comparison."""
+    import io
+    for c in range(ctx.n(60, 600)):
+        ng = ctx.rng.choice([1, 1, 2, 3])
+        same_time = ctx.rng.random() < 0.7
+        date = "2000-%02d-%02d%s" % (ctx.rng.randrange(1, 13), ctx.rng.randrange(1, 28), ctx.rng.choice(["", " 12:00", "T06:30:15"]))
+        groups, want = [], {}
+        for g in range(ng):
+            num = ctx.rng.choice([1, 3, 16, 17, 18, 33, 64, 100, 257, 300])
+            vals = [float(x) for x in ctx.rng.sample(range(-5000, 5000), num)]
+            form = ctx.rng.choice(["list", "tuple", "array", "int_list"])
+            v = {"list": list(vals), "tuple": tuple(vals), "array": np.array(vals), "int_list": [int(x) for x in vals]}[form]
+            d = date if same_time else "2000-%02d-%02d" % (ctx.rng.randrange(1, 13), ctx.rng.randrange(1, 28))
+            conf = dict(date=d, num=num, location=[5 + g, 60], depth=0, attrs=dict(seq=v, gid=1000 + g))
+            if ctx.rng.random() < 0.3:
+                conf["attrs"]["other"] = [0, 10]          # a range attribute beside it (draws do not disturb the order)
+            groups.append(conf); want[1000 + g] = vals
+            ctx.branch("single_time.num_ge_17" if num >= 17 else "single_time.num_lt_17"); ctx.branch("single_time.form=%s" % form)
+        entry = "flat" if ng == 1 and ctx.rng.random() < 0.5 else ctx.rng.choice(["groups", "list"])
+        cfg = dict(groups[0]) if entry == "flat" else (dict(groups=list(groups)) if entry == "groups" else list(groups))
+        if entry != "list" and ctx.rng.random() < 0.5: cfg["seed"] = ctx.rng.randrange(1000)
+        to_file = ctx.rng.random() < 0.3
+        ctx.branch("single_time"); ctx.branch("single_time.entry=%s" % entry); ctx.branch("single_time.groups=%d" % ng)
+        if same_time and ng > 1: ctx.branch("single_time.groups_share_time")
+        cs = dict(entry=entry, groups=[dict(G, attrs={k: (list(map(float, x)) if k == "seq" else x) for k, x in G["attrs"].items()}) for G in groups], to_file=to_file)
+        ctx.case(key=("single_time", c, repr(cs)), nontrivial=True)
+        try:
+            with Recorder(ctx.sub_seed(), None):
+                if to_file:
+                    buf = io.StringIO(); out = mk.make_release(cfg, buf)
+                else:
+                    out = mk.make_release(cfg)
+        except Exception as e:
+            ctx.oracle(False, "C04.table.rejected", "ladim_plugins/release/makrel.py::make_release", "a configuration of documented forms raised %r" % (e,), cs)
+            continue
+        gid = [int(round(float(x))) for x in table_column(out["gid"])]
+        seq = table_column(out["seq"])
+        for k, vals in want.items():
+            got = [x for x, g_ in zip(seq, gid) if g_ == k]
+            ctx.oracle(got == vals, "C04.list.verbatim_order", "ladim_plugins/release/makrel.py::make_release",
+                       "the explicit list of group %d (%d particles released at one time) comes back in another order: first differing position %s"
+                       % (k, len(vals), next((i for i, (a, b) in enumerate(zip(got, vals)) if a != b), len(got))), dict(cs, group=k, got=got))
+
+
 def run(ctx):
     mk = importlib.import_module("ladim_plugins.release.makrel")
     drv = Driver()
@@ -913,6 +962,7 @@ def run(ctx):
     run_piece_mass(ctx, mk)
     run_tables(ctx, mk)
     run_piece_history(ctx, mk)
+    run_single_time_order(ctx, mk)
     if drv.available:
         rep = drv.run()
         results = []
